@@ -15,6 +15,8 @@ type objects struct {
 	l     Lexer
 	lsrc  string
 	lctx  interface{}
+	lfile bool
+	lset  bool // SetContext was called on the lexer since it was created (possibly with nil)
 	usedP bool
 	cache tokCache
 }
@@ -66,9 +68,11 @@ func (e *env) execOps(ops []Op, o *objects, sess *act.Session, budget int64, per
 			if !e.g.HasLexer() {
 				continue
 			}
-			o.l = e.g.NewLexer([]byte(op.In.Text))
+			o.l = e.lexerFor(op.In.Text, op.In.FromFile)
 			o.lsrc = op.In.Text
+			o.lfile = op.In.FromFile
 			o.lctx = nil
+			o.lset = false
 		case "lexscan":
 			if o.l == nil {
 				continue
@@ -81,6 +85,7 @@ func (e *env) execOps(ops []Op, o *objects, sess *act.Session, budget int64, per
 		case "lexctx":
 			if o.l != nil {
 				o.lctx = ctxOf(op.Ctx)
+				o.lset = true
 				o.l.SetContext(o.lctx)
 			}
 		case "lexreset":
@@ -93,8 +98,8 @@ func (e *env) execOps(ops []Op, o *objects, sess *act.Session, budget int64, per
 				u = d
 			}
 			if perOp != nil {
-				lf := e.g.NewLexer([]byte(o.lsrc))
-				if o.lctx != nil {
+				lf := e.lexerFor(o.lsrc, o.lfile)
+				if o.lset {
 					lf.SetContext(o.lctx)
 				}
 				gsim.Cur().Steps = 0
@@ -115,8 +120,8 @@ func (e *env) execOps(ops []Op, o *objects, sess *act.Session, budget int64, per
 			if perOp != nil {
 				pf := e.g.NewParser()
 				pf.SetContext(o.pctx)
-				lf := e.g.NewLexer([]byte(o.lsrc))
-				if o.lctx != nil {
+				lf := e.lexerFor(o.lsrc, o.lfile)
+				if o.lset {
 					lf.SetContext(o.lctx)
 				}
 				f = e.runParse(pf, lf, in, op.Fault, sess, nil).String()
